@@ -9,12 +9,14 @@
 //! link, number of events the supervisor has received, `post_stop` flag.
 //!
 //! ops.txt / impl.txt:
-//!   `case <cause> <n>`      | `ok <fields> at=<exiter point>`        cause = stop|kill|drain|panic
+//!   `case <cause> <n> <d>`  | `ok <fields> at=<exiter point>`        cause = stop|kill|drain|panic|stoppanic; d drainers
+//!   `step d<i> drain.status`| `<fields> at=done`                      a late `drain()`'s status update
+//!   `succ`                  | `<fields> at=ok|refused`                a successor registers the freed name
 //!   `step e <point>`        | `<fields> at=<next|done>`
 //!   `step w<i> <point>`     | `<fields> at=<next|done>[ ret]`
 //!   `abandon <i>`           | `<fields> at=done`
 //!   `end <cause> <n> <sig>` | `<fields> waiters=<r|a|p,…>`            r returned, a abandoned, p still pending
-//! fields = `st=<u8> name=<0|1> pid=<0|1> pg=<0|1> mon=<0|1> kids=<n> link=<0|1> sup=<k> post=<0|1>`
+//! fields = `st=<u8> name=<0|1> succ=<0|1> pid=<0|1> pg=<0|1> mon=<0|1> kids=<n> link=<0|1> sup=<k> post=<0|1>`
 //!
 //!   `xstress <i> cause= n=` | `w=<kind:result:st:name:pid:pg:mon:kids:link:post,…> sup=<events> st=<final>`
 //!                            (free-running tasks on a multi-threaded runtime; oracle only)
@@ -46,22 +48,39 @@ enum TMsg {
 }
 impl Message for TMsg {}
 
+/// Actor state whose destructor panics once (never while already unwinding) when `explode` is set:
+/// for an unsupervised actor the terminal event carrying the state is dropped inside
+/// `notify_supervisor`, i.e. in the middle of `ActorLifecycleGuard::cleanup`.
+struct Explosive {
+    explode: bool,
+    dropped: Arc<AtomicBool>,
+}
+impl Drop for Explosive {
+    fn drop(&mut self) {
+        let first = !self.dropped.swap(true, Ordering::SeqCst);
+        if self.explode && first && !std::thread::panicking() {
+            panic!("state destructor fails");
+        }
+    }
+}
+
 struct Target {
     post: Arc<AtomicBool>,
+    explode: bool,
 }
 impl Actor for Target {
     type Msg = TMsg;
-    type State = ();
+    type State = Explosive;
     type Arguments = ();
-    async fn pre_start(&self, _: ActorRef<TMsg>, _: ()) -> Result<(), ActorProcessingErr> {
-        Ok(())
+    async fn pre_start(&self, _: ActorRef<TMsg>, _: ()) -> Result<Explosive, ActorProcessingErr> {
+        Ok(Explosive { explode: self.explode, dropped: Arc::new(AtomicBool::new(false)) })
     }
-    async fn handle(&self, _: ActorRef<TMsg>, m: TMsg, _: &mut ()) -> Result<(), ActorProcessingErr> {
+    async fn handle(&self, _: ActorRef<TMsg>, m: TMsg, _: &mut Explosive) -> Result<(), ActorProcessingErr> {
         match m {
             TMsg::Boom => panic!("boom"),
         }
     }
-    async fn post_stop(&self, _: ActorRef<TMsg>, _: &mut ()) -> Result<(), ActorProcessingErr> {
+    async fn post_stop(&self, _: ActorRef<TMsg>, _: &mut Explosive) -> Result<(), ActorProcessingErr> {
         verif::point("post_stop");
         self.post.store(true, Ordering::SeqCst);
         Ok(())
@@ -111,6 +130,10 @@ enum Choice {
     E,
     W(usize),
     Abandon(usize),
+    /// drainer thread `i` executes `drain()`'s status `fetch_update`
+    D(usize),
+    /// a successor actor registers the (freed) name
+    Succ,
 }
 
 /// points that are steps of the model; every other point (tree.*, reg.*, pg.*, admission points)
@@ -133,12 +156,14 @@ fn is_model_point(p: &str) -> bool {
             | "cleanup.stopped"
             | "wait.poll"
             | "wait.created"
+            | "drain.status"
     )
 }
 
 /// exiter points before `cleanup.stopped`: they touch neither `Stopped` nor `Notify`
 fn is_pre_stop_point(p: &str) -> bool {
-    is_model_point(p) && !matches!(p, "cleanup.stopped" | "status.notify" | "notify.waiters" | "notify.one" | "wait.poll" | "wait.created")
+    is_model_point(p)
+        && !matches!(p, "cleanup.stopped" | "status.notify" | "notify.waiters" | "notify.one" | "wait.poll" | "wait.created" | "drain.status")
 }
 
 struct Env {
@@ -152,7 +177,10 @@ struct View<'a> {
     exiter: Option<&'static str>,
     /// waiters parked: (index, point)
     waiters: &'a [(usize, &'static str)],
-    /// exiter has published `Stopped` (it is past `cleanup.stopped`'s `status.publish`)
+    /// drainer threads still parked at `drain.status`
+    drainers: &'a [usize],
+    /// the name is free and no successor has been started yet
+    succ_possible: bool,
     steps: usize,
 }
 
@@ -177,7 +205,7 @@ fn at(p: &ThreadPhase) -> &'static str {
     }
 }
 
-fn run_case(env: &mut Env, cause: &str, n: usize, collapse_pre: bool, choose: &mut dyn FnMut(&View) -> Choice) {
+fn run_case(env: &mut Env, cause: &str, n: usize, ndrain: usize, collapse_pre: bool, choose: &mut dyn FnMut(&View) -> Choice) {
     let case_no = CASE_NO.fetch_add(1, Ordering::SeqCst);
     let t0 = std::time::Instant::now();
     let prof = std::env::var("PROF").is_ok();
@@ -194,6 +222,7 @@ fn run_case(env: &mut Env, cause: &str, n: usize, collapse_pre: bool, choose: &m
     let ectl = ThreadCtl::new();
     let (tx_cell, rx_cell) = mpsc::channel::<ActorRef<TMsg>>();
     let (tx_go, rx_go) = mpsc::channel::<()>();
+    let unsupervised = cause == "stoppanic";
     let exiter = {
         let ectl = ectl.clone();
         let post = post.clone();
@@ -201,7 +230,11 @@ fn run_case(env: &mut Env, cause: &str, n: usize, collapse_pre: bool, choose: &m
         std::thread::spawn(move || {
             let rt = tokio::runtime::Builder::new_current_thread().enable_time().build().expect("exiter runtime");
             let (aref, handle) = rt.block_on(async {
-                let (a, h) = Actor::spawn_linked(Some(name), Target { post }, (), sup_cell).await.expect("spawn target");
+                let (a, h) = if unsupervised {
+                    Actor::spawn(Some(name), Target { post, explode: true }, ()).await.expect("spawn target")
+                } else {
+                    Actor::spawn_linked(Some(name), Target { post, explode: false }, (), sup_cell).await.expect("spawn target")
+                };
                 while a.get_status() != ractor::ActorStatus::Running {
                     tokio::task::yield_now().await;
                 }
@@ -263,6 +296,7 @@ fn run_case(env: &mut Env, cause: &str, n: usize, collapse_pre: bool, choose: &m
         abandon_flags.push(flag);
     }
     if prof { eprintln!("setup {:?}", t0.elapsed()); }
+    let mut successor: Option<ActorRef<Unit>> = None;
     let mut wph: Vec<ThreadPhase> = wctls.iter().map(wait_model_point).collect();
     if prof { eprintln!("waiters parked {:?}", t0.elapsed()); }
 
@@ -270,9 +304,10 @@ fn run_case(env: &mut Env, cause: &str, n: usize, collapse_pre: bool, choose: &m
         quiesce(&env.crt);
         let ev = events.lock().unwrap();
         format!(
-            "st={} name={} pid={} pg={} mon={} kids={} link={} sup={} post={}",
+            "st={} name={} succ={} pid={} pg={} mon={} kids={} link={} sup={} post={}",
             cell.get_status() as u8,
-            ractor::registry::where_is(name.clone()).is_some() as u8,
+            (ractor::registry::where_is(name.clone()).map(|c| c.get_id()) == Some(id)) as u8,
+            ractor::registry::where_is(name.clone()).is_some_and(|c| c.get_id() != id) as u8,
             ractor::registry::where_is_pid(id).is_some() as u8,
             ractor::pg::get_members(&group).iter().any(|c| c.get_id() == id) as u8,
             ractor::pg::verif_monitoring(&mgroup, id).0 as u8,
@@ -285,7 +320,7 @@ fn run_case(env: &mut Env, cause: &str, n: usize, collapse_pre: bool, choose: &m
 
     // trigger the exit; the exiter thread then runs to its first point
     match cause {
-        "stop" => cell.stop(None),
+        "stop" | "stoppanic" => cell.stop(None),
         "kill" => cell.kill(),
         "drain" => {
             let _ = cell.drain();
@@ -296,9 +331,27 @@ fn run_case(env: &mut Env, cause: &str, n: usize, collapse_pre: bool, choose: &m
         _ => panic!("unknown cause {cause}"),
     }
     let mut eph = wait_model_point(&ectl);
+    // drainers: each calls `drain()`; only its status `fetch_update` (`drain.status`) is a model step.
+    // They are started after the trigger: their `fetch_or(CLOSED)` (passed through) must not keep the
+    // triggering message out of the mailbox.
+    let mut dctls = Vec::new();
+    let mut djoins = Vec::new();
+    for _ in 0..ndrain {
+        let ctl = ThreadCtl::new();
+        let c2 = ctl.clone();
+        let cell2 = cell.clone();
+        djoins.push(std::thread::spawn(move || {
+            verif::thread_register(c2.clone());
+            let _ = cell2.drain();
+            verif::thread_unregister();
+            c2.finish();
+        }));
+        dctls.push(ctl);
+    }
+    let mut dph: Vec<ThreadPhase> = dctls.iter().map(wait_model_point).collect();
     if prof { eprintln!("triggered {:?}", t0.elapsed()); }
     let f = fields(env);
-    env.log.rec(format!("case {cause} {n}"), format!("ok {f} at={}", at(&eph)));
+    env.log.rec(format!("case {cause} {n} {ndrain}"), format!("ok {f} at={}", at(&eph)));
     env.st.bump("cases");
     env.st.bump(&format!("cause_{cause}"));
 
@@ -335,10 +388,34 @@ fn run_case(env: &mut Env, cause: &str, n: usize, collapse_pre: bool, choose: &m
             .filter(|(i, p)| matches!(p, ThreadPhase::AtPoint(_)) && if ex.is_some() { !stale[*i] } else { post_polls[*i] < POST_POLLS })
             .map(|(i, p)| (i, at(p)))
             .collect();
-        if ex.is_none() && ws.is_empty() {
+        let ds: Vec<usize> = dph.iter().enumerate().filter(|(_, p)| matches!(p, ThreadPhase::AtPoint(_))).map(|(i, _)| i).collect();
+        let succ_possible = successor.is_none() && ractor::registry::where_is(name.clone()).is_none();
+        if ex.is_none() && ws.is_empty() && ds.is_empty() {
             break;
         }
-        match choose(&View { exiter: ex, waiters: &ws, steps }) {
+        match choose(&View { exiter: ex, waiters: &ws, drainers: &ds, succ_possible, steps }) {
+            Choice::D(i) => {
+                assert!(ds.contains(&i), "schedule picks drainer {i} which is not parked");
+                let p = at(&dph[i]);
+                dctls[i].grant();
+                dph[i] = wait_model_point(&dctls[i]);
+                let f = fields(env);
+                env.log.rec(format!("step d{i} {p}"), format!("{f} at={}", at(&dph[i])));
+                env.st.bump("pt_drain.status");
+                sig.push('d');
+                steps += 1;
+                stale.iter_mut().for_each(|x| *x = false);
+            }
+            Choice::Succ => {
+                assert!(succ_possible, "the name is not free");
+                let r = env.crt.block_on(async { Actor::spawn(Some(name.clone()), Child, ()).await });
+                successor = r.ok().map(|x| x.0);
+                let f = fields(env);
+                env.log.rec("succ".to_string(), format!("{f} at={}", if successor.is_some() { "ok" } else { "refused" }));
+                env.st.bump("successor");
+                sig.push('s');
+                steps += 1;
+            }
             Choice::E => {
                 assert!(ex.is_some(), "schedule picks the finished exiter");
                 step_e!();
@@ -394,6 +471,14 @@ fn run_case(env: &mut Env, cause: &str, n: usize, collapse_pre: bool, choose: &m
             states.push(results.lock().unwrap()[i].unwrap_or("?"));
         }
     }
+    for (i, c) in dctls.iter().enumerate() {
+        if matches!(dph[i], ThreadPhase::AtPoint(_)) {
+            c.release();
+        }
+    }
+    for j in djoins {
+        j.join().expect("drainer panicked");
+    }
     let f = fields(env);
     env.log.rec(format!("end {cause} {n} {sig}"), format!("{f} waiters={}", if states.is_empty() { "-".to_string() } else { states.join(",") }));
     env.st.add("steps", steps as u64);
@@ -404,6 +489,9 @@ fn run_case(env: &mut Env, cause: &str, n: usize, collapse_pre: bool, choose: &m
     if prof { eprintln!("joined {:?}", t0.elapsed()); }
     child.stop(None);
     sup_ref.stop(None);
+    if let Some(su) = successor {
+        su.stop(None);
+    }
     quiesce(&env.crt);
     if prof { eprintln!("cleaned {:?}", t0.elapsed()); }
 }
@@ -444,10 +532,16 @@ impl Dfs {
     }
 }
 
-fn choices(v: &View, abandon_allowed: bool) -> Vec<Choice> {
+fn choices(v: &View, abandon_allowed: bool, succ_allowed: bool) -> Vec<Choice> {
     let mut c = Vec::new();
     if v.exiter.is_some() {
         c.push(Choice::E);
+    }
+    for i in v.drainers {
+        c.push(Choice::D(*i));
+    }
+    if succ_allowed && v.succ_possible {
+        c.push(Choice::Succ);
     }
     for (i, _) in v.waiters {
         c.push(Choice::W(*i));
@@ -462,14 +556,14 @@ fn choices(v: &View, abandon_allowed: bool) -> Vec<Choice> {
     c
 }
 
-fn enumerate(env: &mut Env, name: &str, cause: &str, n: usize, collapse: bool, abandon: bool, cap: u64) {
+fn enumerate(env: &mut Env, name: &str, cause: &str, n: usize, ndrain: usize, collapse: bool, abandon: bool, succ: bool, cap: u64) {
     let mut dfs = Dfs::default();
     let mut count = 0u64;
     let complete = loop {
         dfs.begin();
         let mut used = false;
-        run_case(env, cause, n, collapse, &mut |v: &View| {
-            let cs = choices(v, abandon && !used);
+        run_case(env, cause, n, ndrain, collapse, &mut |v: &View| {
+            let cs = choices(v, abandon && !used, succ);
             let k = dfs.choose(cs.len());
             if let Choice::Abandon(_) = cs[k] {
                 used = true;
@@ -488,16 +582,23 @@ fn enumerate(env: &mut Env, name: &str, cause: &str, n: usize, collapse: bool, a
     env.st.add(&format!("enum_{name}_complete"), complete as u64);
 }
 
-fn random_case(env: &mut Env, rng: &mut Rng, cause: &str, n: usize) {
+fn random_case(env: &mut Env, rng: &mut Rng, cause: &str, n: usize, ndrain: usize) {
     let mut r = rng.fork();
     let mode = r.below(4); // 0 uniform, 1 exiter-heavy, 2 waiter-heavy, 3 with abandons
     let collapse = r.chance(1, 3);
-    run_case(env, cause, n, collapse, &mut |v: &View| {
+    let want_succ = r.chance(1, 2);
+    run_case(env, cause, n, ndrain, collapse, &mut |v: &View| {
         if mode == 3 && r.chance(1, 10) {
             let c: Vec<usize> = v.waiters.iter().filter(|(_, p)| *p == "wait.poll").map(|(i, _)| *i).collect();
             if !c.is_empty() {
                 return Choice::Abandon(c[r.below(c.len() as u64) as usize]);
             }
+        }
+        if !v.drainers.is_empty() && (r.chance(1, 8) || (v.exiter.is_none() && v.waiters.is_empty())) {
+            return Choice::D(v.drainers[r.below(v.drainers.len() as u64) as usize]);
+        }
+        if want_succ && v.succ_possible && r.chance(1, 4) {
+            return Choice::Succ;
         }
         let pick_e = match mode {
             1 => r.chance(3, 4),
@@ -506,8 +607,10 @@ fn random_case(env: &mut Env, rng: &mut Rng, cause: &str, n: usize) {
         };
         if v.exiter.is_some() && (pick_e || v.waiters.is_empty()) {
             Choice::E
-        } else {
+        } else if !v.waiters.is_empty() {
             Choice::W(v.waiters[r.below(v.waiters.len() as u64) as usize].0)
+        } else {
+            Choice::D(v.drainers[0])
         }
     });
 }
@@ -539,7 +642,7 @@ fn stress_case(env: &mut Env, srt: &tokio::runtime::Runtime, rng: &mut Rng, idx:
     let (sup_ref, aref, handle, child) = srt.block_on(async {
         let (sup_ref, _) = Actor::spawn(None, Sup { events: events.clone() }, ()).await.expect("spawn sup");
         let (aref, handle) =
-            Actor::spawn_linked(Some(name.clone()), Target { post: post.clone() }, (), sup_ref.get_cell()).await.expect("spawn target");
+            Actor::spawn_linked(Some(name.clone()), Target { post: post.clone(), explode: false }, (), sup_ref.get_cell()).await.expect("spawn target");
         let cell = aref.get_cell();
         ractor::pg::join(group.clone(), vec![cell.clone()]);
         ractor::pg::monitor(mgroup.clone(), cell.clone());
@@ -646,8 +749,9 @@ fn replay_file(env: &mut Env, path: &str) {
     let mut i = 0;
     while i < lines.len() {
         let w: Vec<&str> = lines[i].split_whitespace().collect();
-        let (cause, n) = match w.as_slice() {
-            ["case", c, n] => (c.to_string(), n.parse::<usize>().expect("n")),
+        let (cause, n, ndrain) = match w.as_slice() {
+            ["case", c, n] => (c.to_string(), n.parse::<usize>().expect("n"), 0),
+            ["case", c, n, d] => (c.to_string(), n.parse::<usize>().expect("n"), d.parse::<usize>().expect("d")),
             _ => {
                 i += 1;
                 continue;
@@ -660,6 +764,8 @@ fn replay_file(env: &mut Env, path: &str) {
             match w.as_slice() {
                 ["step", "e", ..] => sched.push(Choice::E),
                 ["step", t, ..] if t.starts_with('w') => sched.push(Choice::W(t[1..].parse().expect("waiter"))),
+                ["step", t, ..] if t.starts_with('d') => sched.push(Choice::D(t[1..].parse().expect("drainer"))),
+                ["succ"] => sched.push(Choice::Succ),
                 ["abandon", t] => sched.push(Choice::Abandon(t.parse().expect("waiter"))),
                 _ => {}
             }
@@ -667,7 +773,7 @@ fn replay_file(env: &mut Env, path: &str) {
         }
         let mut k = 0;
         let mut extra = 0usize;
-        run_case(env, &cause, n, false, &mut |v: &View| {
+        run_case(env, &cause, n, ndrain, false, &mut |v: &View| {
             while k < sched.len() {
                 let c = sched[k];
                 k += 1;
@@ -675,6 +781,8 @@ fn replay_file(env: &mut Env, path: &str) {
                     Choice::E => v.exiter.is_some(),
                     Choice::W(t) => v.waiters.iter().any(|(e, _)| *e == t),
                     Choice::Abandon(t) => v.waiters.iter().any(|(e, p)| *e == t && *p == "wait.poll"),
+                    Choice::D(t) => v.drainers.contains(&t),
+                    Choice::Succ => v.succ_possible,
                 };
                 if ok {
                     return c;
@@ -683,6 +791,9 @@ fn replay_file(env: &mut Env, path: &str) {
             // recorded schedule exhausted: finish the exiter, then give each waiter its polls
             if v.exiter.is_some() {
                 return Choice::E;
+            }
+            if let Some(d) = v.drainers.first() {
+                return Choice::D(*d);
             }
             extra += 1;
             let _ = v.steps;
@@ -702,7 +813,12 @@ fn main() {
     let mut env = Env { crt, log: Log::create(std::path::Path::new(&out)).unwrap(), st: Stats::default() };
     let mut rng = Rng::new(seed);
     // panics of the test handler are expected (cause = panic): keep stderr quiet
-    std::panic::set_hook(Box::new(|_| {}));
+    // (a panic of the harness itself, on the controller thread, is still reported)
+    std::panic::set_hook(Box::new(|info| {
+        if std::thread::current().name() == Some("main") {
+            eprintln!("exitrace harness: {info}");
+        }
+    }));
 
     if let Some(files) = args.0.get("replay-ops") {
         for f in files.split(',').filter(|f| !f.is_empty()) {
@@ -711,15 +827,22 @@ fn main() {
     }
     if args.u64("only-replay", 0) == 0 {
         // every schedule of small configurations
-        enumerate(&mut env, "stop_1w_full", "stop", 1, false, false, enum_cap);
-        enumerate(&mut env, "stop_2w_collapsed", "stop", 2, true, false, enum_cap);
-        enumerate(&mut env, "kill_2w_collapsed", "kill", 2, true, false, enum_cap);
-        enumerate(&mut env, "stop_2w_abandon", "stop", 2, true, true, enum_cap);
-        let causes = ["stop", "stop", "kill", "drain", "panic"];
+        // a late `drain()` at every position of the exit sequence, a successor taking the freed name
+        // at every position after it was freed
+        enumerate(&mut env, "stop_1drain_succ_full", "stop", 0, 1, false, false, true, enum_cap);
+        // one statement of the lifecycle guard's cleanup panics (state destructor, unsupervised actor)
+        enumerate(&mut env, "stoppanic_1drain_full", "stoppanic", 0, 1, false, false, true, enum_cap);
+        enumerate(&mut env, "stop_1w_full", "stop", 1, 0, false, false, false, enum_cap);
+        enumerate(&mut env, "stop_2w_collapsed", "stop", 2, 0, true, false, false, enum_cap);
+        enumerate(&mut env, "kill_2w_collapsed", "kill", 2, 0, true, false, false, enum_cap);
+        enumerate(&mut env, "stop_2w_abandon", "stop", 2, 0, true, true, false, enum_cap);
+        enumerate(&mut env, "stoppanic_2w_collapsed", "stoppanic", 2, 0, true, false, false, enum_cap);
+        let causes = ["stop", "stop", "kill", "drain", "panic", "stoppanic"];
         for _ in 0..cases {
             let cause = *rng.pick(&causes);
             let n = rng.range(0, 4) as usize;
-            random_case(&mut env, &mut rng, cause, n);
+            let ndrain = *rng.pick(&[0usize, 0, 1, 1, 2]);
+            random_case(&mut env, &mut rng, cause, n, ndrain);
         }
     }
     let stress = args.u64("stress", 0);
